@@ -30,7 +30,9 @@ use crate::api_impl::owner_updater::StatusMessage;
 use crate::grin_keychain::{BlindingFactor, Identifier, Keychain, SwitchCommitmentType};
 use crate::internal::{keys, scan, selection, tx, updater};
 use crate::slate::{PaymentInfo, Slate, SlateState};
-use crate::types::{AcctPathMapping, NodeClient, TxLogEntry, WalletBackend, WalletInfo};
+use crate::types::{
+	AcctPathMapping, NodeClient, OutputData, OutputStatus, TxLogEntry, WalletBackend, WalletInfo,
+};
 use crate::Error;
 use crate::{
 	address,
@@ -1343,11 +1345,40 @@ where
 			if let Some(k) = kernel {
 				debug!("Kernel Retrieved: {:?}", k);
 				wallet_lock!(wallet_inst, w);
+				// The list of transactions was read in an earlier critical section:
+				// re-read this entry and leave it alone if it is no longer outstanding
+				// (e.g. it was cancelled in the meantime)
+				let current = updater::retrieve_txs(
+					&mut **w,
+					Some(tx.id),
+					None,
+					None,
+					Some(&parent_key_id),
+					true,
+				)?;
+				let mut current = match current.into_iter().next() {
+					Some(t) => t,
+					None => continue,
+				};
+				// the inputs of a confirmed transaction are spent
+				let locked_inputs: Vec<OutputData> = w
+					.iter()
+					.filter(|o| {
+						o.root_key_id == parent_key_id
+							&& o.tx_log_entry == Some(current.id)
+							&& o.status == OutputStatus::Locked
+					})
+					.collect();
 				let mut batch = w.batch(keychain_mask)?;
-				tx.confirmed = true;
-				tx.update_confirmation_ts();
-				batch.save_tx_log_entry(tx.clone(), &parent_key_id)?;
+				current.confirmed = true;
+				current.update_confirmation_ts();
+				batch.save_tx_log_entry(current.clone(), &parent_key_id)?;
+				for mut o in locked_inputs {
+					o.mark_spent();
+					batch.save(o)?;
+				}
 				batch.commit()?;
+				*tx = current;
 			}
 		} else {
 			warn!("Attempted to update via kernel excess for transaction {:?}, but kernel excess was not stored", tx.tx_slate_id);
